@@ -18,7 +18,7 @@ def main():
     checks = sys.argv[3:]
     P = p.upper()
     store_i = i
-    if p[-1] in "bcd":   # later rounds: c06b -> property C06, stored as C06-3, C06-4, ...
+    if p[-1] in "bcdefgh":   # later rounds: c06b -> property C06, stored as C06-3, C06-4, ...
         P = p[:-1].upper()
         store_i = str(int(i) + 2 * (ord(p[-1]) - ord("a")))
     src = f"/tmp/seed-{p}-out"
